@@ -2,9 +2,10 @@
 # Re-run, for every seeded change, the checks recorded as detecting it against the CURRENT /repo + patch (scratch copy).
 # Patches that no longer apply to the current tree (the code they touch was repaired since) are reported as PATCH-STALE.
 # Writes mutants/SEEDED_CAMPAIGN.md.  usage: tools/seed_campaign.sh [name-filter]
+# With a filter only the rows of the matching seeds are replaced (or added) in the existing file.
 cd /verif
 out=mutants/SEEDED_CAMPAIGN.md
-{
+[ -n "$1" ] && [ -f $out ] || {
  echo "# Seeded changes against the current checks (tools/seed_campaign.sh, $(date -u +%F), /repo $(git -C /repo log --format=%h -n1))"
  echo ""
  echo "| seed | property | checks run | result |"
@@ -17,6 +18,7 @@ for d in seeded/*${1}*/; do
   prop=$(/venv/bin/python -c "import json; print(json.load(open('$d/meta.json'))['property'])")
   res=$(tools/mutant.sh $d/patch.diff $ids 2>&1 | grep -E "^(CAUGHT|MISSED|HARNESS|PATCH)" | cut -c1-60 | tr '\n' ';')
   case "$res" in *PATCH-FAILED*) res="PATCH-STALE (does not apply to the current tree)";; esac
+  [ -n "$1" ] && sed -i "/^| $name | /d" $out
   echo "| $name | $prop | $ids | ${res//|/\\|} |" >> $out
   echo "$name: $res"
 done
